@@ -93,6 +93,9 @@ pub struct MNode {
     pub writes: Vec<WriteSpec>,
     pub env_refs: Vec<Tag>,
     pub valid: bool,
+    /// invalid in the engine for certain: its defining bind re-ran. (Other invalid nodes of the model --
+    /// an input is invalid -- may still be valid in the engine as long as nothing needs them.)
+    pub dead: bool,
     pub invalid_round: Option<Round>,
     pub cache: Cache,
     pub run: (Round, Round),
@@ -234,6 +237,7 @@ impl Model {
             writes: d.writes.clone(),
             env_refs: d.env_refs.clone(),
             valid: true,
+            dead: false,
             invalid_round: None,
             cache: Cache::Never,
             run: (NEVER, NEVER),
@@ -469,7 +473,7 @@ impl Model {
             seen[t as usize] = true;
             out.push(t);
             let n = self.node(t);
-            if !n.valid {
+            if n.dead {
                 continue;
             }
             stack.extend(n.inputs.iter().copied());
@@ -543,6 +547,17 @@ impl Model {
             for g in gen_nodes {
                 self.invalidate(g, false);
             }
+        }
+    }
+
+    fn mark_dead(&mut self, t: Tag) {
+        if !self.has(t) || self.node(t).dead {
+            return;
+        }
+        self.node_mut(t).dead = true;
+        let gen_nodes = self.node(t).bind.as_ref().map(|b| b.gen_nodes.clone()).unwrap_or_default();
+        for g in gen_nodes {
+            self.mark_dead(g);
         }
     }
 
@@ -675,6 +690,7 @@ impl Model {
             for g in old {
                 self.old_gen_this_round.push(g);
                 self.invalidate(g, false);
+                self.mark_dead(g);
             }
             let (gen, rhs, arg) = {
                 let v = &self.bind_runs[&b];
